@@ -69,6 +69,8 @@ def run_property(pid, tier, jobs=None, only=None):
     obs = [o for o in mod.obligations() if tier in o.tiers or (tier == 'thorough' and 'quick' in o.tiers)]
     if only:
         obs = [o for o in obs if o.fn in only]
+    if os.environ.get('VKOPF_CELL_FILTER'):     # development aid: only the cells whose JSON contains this substring
+        obs = [o for o in obs if os.environ['VKOPF_CELL_FILTER'] in json.dumps(o.cell, sort_keys=True)]
     scale = float(os.environ.get('VKOPF_TIMEOUT_SCALE', '1'))
     tasks = []   # (kind, ob, twin, spec)
     for o in obs:
